@@ -6,6 +6,10 @@
        straight-segment paths: the frozen entry table of verifkit/exact.py plus
        its callee closure.  Floats may flow into predicates and float-by-nature
        results (length, rotation, float()).
+ R13.3 no intermediate point value passes through the capped constructor in the
+       middle of an exact computation (verifkit/capflow.py): non-in-place Point2D
+       operators copy their operand through Point2D.__init__, which rounds to the
+       cap; on the exact paths their receiver is never a derived value.
  R13.2 the Fraction API receives ints: every argument of Fraction(...) and
        limit_denominator(...) is exact, and the documented cap of stored
        coordinates is an int >= 10**9 applied only in Point2D.__init__.
@@ -70,4 +74,32 @@ def r13_2(ctx):
     return out
 
 
-RULES = [r13_1, r13_2]
+def r13_3(ctx):
+    from verifkit.capflow import capflow
+    E = _collect(ctx)
+    C = capflow(ctx)
+    out = Outcome("R13.3", "no intermediate point value is rounded to the coordinate cap before the computation is finished: "
+                           "on the exact paths, arithmetic on a derived point is done in place (a non-in-place Point2D "
+                           "operator copies its operand through the capped constructor)", floor=50)
+    if not C.premise:
+        out.note("premise gone: the non-in-place operators of Point2D no longer copy through a capping constructor")
+    n = 0
+    for q in sorted(E.analysed):
+        fn = ctx.model.funcs[q]
+        fs = C.findings(fn)
+        n += 1
+        if fs:
+            node, txt = fs[0]
+            out.bad(q, "an intermediate point value is rounded to the coordinate cap in the middle of an exact computation",
+                    where=fn.where(node), detail=txt)
+        else:
+            pts = sorted(k for k, v in (C.envs.get(q) or {}).items() if v)
+            out.ok(q, "no non-in-place operator on a derived point", where=fn.where(), nontrivial=bool(pts) and q in EXACT)
+    horner = ctx.model.funcs.get("curve.Math.horner_method")
+    if horner is not None and not C.pparams.get(horner.qname):
+        out.undecided(horner.qname, "the evaluation helper is no longer seen to receive point-valued coefficients",
+                      where=horner.where())
+    return out
+
+
+RULES = [r13_1, r13_2, r13_3]
